@@ -939,7 +939,7 @@ Lemma int_src_ok_ints : forall w zs, Forall (fun z => urange w z = true) zs ->
   int_src_ok TG (EPrim (KU w)) (PList (map PInt zs)) = true.
 Proof.
   intros w zs H. unfold int_src_ok. destruct (t_arr_precheck TG); [|reflexivity]. cbn [negb orb].
-  destruct (np_flat_ints zs) as [sh ->]. cbn [snd]. apply forallb_forall. intros y Hy.
+  destruct (np_flat_ints zs) as [sh ->]. cbn [snd]. apply orb_true_iff. right. apply forallb_forall. intros y Hy.
   apply in_map_iff in Hy. destruct Hy as (z & <- & Hin). cbn [int_leaf_ok int_in_range]. rewrite Forall_forall in H. auto.
 Qed.
 
@@ -947,8 +947,9 @@ Lemma int_src_ok_other : forall e y, match e with EPrim (KU _) | EPrim (KS _) =>
   int_src_ok TG e y = true.
 Proof.
   intros e y He. unfold int_src_ok. destruct (t_arr_precheck TG); [|reflexivity]. cbn [negb orb].
-  destruct (np_flat y) as [sl|]; [|reflexivity]. apply forallb_forall. intros x _.
-  destruct e as [[|w|w|w]|t]; try contradiction; reflexivity.
+  assert (A : forall l, forallb (int_leaf_ok e) l = true).
+  { intros l. apply forallb_forall. intros x _. destruct e as [[|w|w|w]|t]; try contradiction; reflexivity. }
+  destruct y; try (destruct (np_flat _) as [sl|]; [|reflexivity]); rewrite ?A, ?orb_true_r; reflexivity.
 Qed.
 
 Theorem array_length_exact : forall q fixed cap sl w zs, 1 <= w <= 64 -> Forall (fun z => urange w z = true) zs ->
